@@ -11,6 +11,7 @@ import re
 import inspect
 import importlib
 import pkgutil
+import types
 
 import z3
 
@@ -325,32 +326,35 @@ def unit_misspelt():
 
 REPLAY_STEP = common.REPLAY_HEADER + '''
 common.use_repo_with_build()
-import importlib, io, contextlib, types
+import importlib, io, contextlib, types, collections
 from pysph.base.utils import get_particle_array
 from pysph.sph.integrator_cython_helper import IntegratorCythonHelper
 from pysph.sph.integrator import Integrator
 mod, cls, method, have, missing = %(mod)r, %(cls)r, %(method)r, %(have)r, %(missing)r
 S = getattr(importlib.import_module(mod), cls)
-pa = get_particle_array(name="d", x=[0.0])
-for p in list(pa.properties.keys()):
-    if p not in have and p not in ("tag", "gid", "pid"):
-        pa.remove_property(p)
-for p in have:
-    if p not in pa.properties:
-        pa.add_property(p)
-integ = Integrator(d=S())
+arrays = {}
+for an, names in have.items():
+    pa = get_particle_array(name=an, x=[0.0])
+    for p in list(pa.properties.keys()):
+        if p not in names and p not in ("tag", "gid", "pid"):
+            pa.remove_property(p)
+    for p in names:
+        if p not in pa.properties:
+            pa.add_property(p)
+    arrays[an] = pa
+integ = Integrator(**dict((an, S()) for an in have))
 helper = IntegratorCythonHelper.__new__(IntegratorCythonHelper)
 helper.object = integ
-helper._particle_arrays = {"d": pa}
+helper._particle_arrays = arrays
+helper.acceleration_eval_helper = types.SimpleNamespace(known_types=collections.defaultdict(lambda: types.SimpleNamespace(type="double*")))
 bad = None
-from pysph.sph.equation import get_array_names
-s, d = get_array_names(helper.get_args("d", method))
 try:
     with contextlib.redirect_stdout(io.StringIO()):
-        helper._check_arrays_for_properties("d", s | d)
-    bad = "stepper %%s.%%s accepted although the array lacks %%s" %% (cls, method, missing)
+        helper.get_array_declarations(method)
+    if missing:
+        bad = "stepper %%s.%%s accepted although %%s is missing" %% (cls, method, missing)
 except RuntimeError as e:
-    if not all(m in str(e) for m in missing) or cls not in str(e):
+    if cls not in str(e) or (missing and not any(m in str(e) for (_, m) in missing)):
         bad = "error does not name stepper and missing names: %%s" %% e
 sys.exit(common.replay_exit(bad))
 '''
@@ -390,21 +394,31 @@ def unit_steppers(modname):
             uni = set(x[2:] for x in s | d) | set(["zz_unrelated"])
 
             def run(c, S=S, method=method, uni=uni):
+                # two arrays with the same stepper class, driven through the
+                # real get_array_declarations (the code-generation path)
+                import collections
                 pd = SSet.fresh("d", uni)
-                c.assume_unchecked(z3.PbLe([(z3.Not(m), 1) for m in
-                                            pd.mem.values()],
-                                           MAX_MISSING_STEPPER))
+                pe = SSet.fresh("e", uni)
+                c.assume_unchecked(z3.PbLe(
+                    [(z3.Not(m), 1) for m in list(pd.mem.values()) +
+                     list(pe.mem.values())], MAX_MISSING_STEPPER))
                 helper = IH.IntegratorCythonHelper.__new__(
                     IH.IntegratorCythonHelper)
-                helper.object = Integrator(d=S())
-                helper._particle_arrays = {"d": ModelArray("d", pd)}
-                ss, dd = get_array_names(helper.get_args("d", method))
+                helper.object = Integrator(d=S(), e=S())
+                helper._particle_arrays = {"d": ModelArray("d", pd),
+                                           "e": ModelArray("e", pe)}
+                helper.acceleration_eval_helper = types.SimpleNamespace(
+                    known_types=collections.defaultdict(
+                        lambda: types.SimpleNamespace(type="double*")))
                 try:
-                    helper._check_arrays_for_properties("d", ss | dd)
+                    helper.get_array_declarations(method)
                 except RuntimeError as e:
-                    return "raised", str(e), pd
-                txt = helper.get_array_setup("d", method)
-                return "ok", sorted(_names(txt, "dst")), pd
+                    return "raised", str(e), (pd, pe)
+                reads = []
+                for an in ("d", "e"):
+                    txt = helper.get_array_setup(an, method)
+                    reads += [(an, x) for x in sorted(_names(txt, "dst"))]
+                return "ok", reads, (pd, pe)
 
             with patched_globals(IH, dict(set=sym_set, list=sym_list,
                                           print=lambda *a, **k: None)):
@@ -413,29 +427,35 @@ def unit_steppers(modname):
                         out.setdefault("harness_errors", []).append(
                             "%s.%s raised %r" % (n, method, path.exc))
                         break
-                    kind, info, pd = path.value
+                    kind, info, (pd, pe) = path.value
+                    mem = {"d": pd, "e": pe}
                     out["obligations"] += 1
                     if kind == "ok":
-                        claim = z3.And(*[pd._m(x) for x in info]) if info \
-                            else z3.BoolVal(True)
+                        claim = z3.And(*[mem[a]._m(x) for a, x in info]) \
+                            if info else z3.BoolVal(True)
                     else:
-                        # message lists names: all must be really missing,
-                        # and the stepper class is named
+                        # message lists names of ONE array: all must be
+                        # really missing there, and the stepper is named
                         mm = re.search(r"properties:\n\t(.*)\n", info)
                         listed = [x.strip() for x in mm.group(1).split(",")] \
                             if mm else []
+                        ma = re.search(r"particle array '(\w+)'", info)
+                        an = ma.group(1) if ma else "d"
                         claim = z3.And(z3.BoolVal(n in info and
                                                   len(listed) > 0),
-                                       *[z3.Not(pd._m(x)) for x in listed])
+                                       *[z3.Not(mem[an]._m(x))
+                                         for x in listed])
                     r, model = path.ctx.prove(claim, timeout_ms=10000)
                     if r == "unsat":
                         out["discharged"] += 1
                     elif r == "sat":
                         ncex[0] += 1
-                        have = [u for u in pd.universe
-                                if model_value(model, pd.mem[u])]
-                        missing = [x for x in (info if kind == "ok" else [])
-                                   if x not in have]
+                        have = dict((an, [u for u in ss.universe
+                                          if model_value(model, ss.mem[u])])
+                                    for an, ss in mem.items())
+                        missing = [(a, x) for a, x in (info if kind == "ok"
+                                                       else [])
+                                   if x not in have[a]]
                         p = common.write_replay(
                             PID, "step_%s_%s_%d" % (n, method, ncex[0]),
                             REPLAY_STEP % dict(mod=modname, cls=n,
